@@ -1164,8 +1164,21 @@ impl ObjFiber {
     }
 
     pub(crate) fn store_error_ip_or(&mut self, alternative: *const u8) {
-        self.current_frame_mut().expect("Expected CallFrame.").ip =
-            self.error_ip.unwrap_or(alternative);
+        // The recorded throw site is only meaningful while the frame it was recorded in is still the
+        // current one (the exception may since have unwound to a `finally` in a caller).
+        let code = self
+            .current_frame()
+            .expect("Expected CallFrame.")
+            .closure
+            .function
+            .chunk
+            .code
+            .as_ptr_range();
+        let ip = match self.error_ip {
+            Some(ip) if ip > code.start && ip <= code.end => ip,
+            _ => alternative,
+        };
+        self.current_frame_mut().expect("Expected CallFrame.").ip = ip;
     }
 
     pub(crate) unsafe fn unchecked_native_frame_slot(&self, index: usize) -> Value {
